@@ -35,5 +35,46 @@ theorem tie_messageLifeCycle :
       some "SELECT data, port, ack, created_time, sent_time, ack_time, fcnt_up FROM lora_downstream_messages WHERE device_eui = $1 AND sent_time = 0 ORDER BY created_time LIMIT 100" :=
   ⟨rfl, rfl, rfl, rfl⟩
 
+/-- Model/Row.lean: which column gets which encoding, which decoder reads it back, and the row-level
+    statements (`toRow`, `ofRow`, `create`, `update`, `delete`, `get`, `list`). -/
+theorem tie_deviceRow :
+    Facts.Storage.createDeviceArgs =
+      ["device.DeviceEUI.ToInt64()", "device.DevAddr.String()", "device.AppKey.String()", "device.AppSKey.String()",
+       "device.NwkSKey.String()", "device.AppEUI.ToInt64()", "uint8(device.State)", "device.FCntUp", "device.FCntDn",
+       "device.RelaxedCounter", "device.KeyWarning", "device.Tag"] ∧
+    Facts.Storage.readDeviceScan =
+      ["&devEUI", "&devAddrStr", "&appKeyStr", "&appSkeyStr", "&nwkSkeyStr", "&appEUI", "&ret.State", "&ret.FCntUp", "&ret.FCntDn",
+       "&ret.RelaxedCounter", "&ret.KeyWarning", "&ret.Tag"] ∧
+    Facts.Storage.readDeviceDecode =
+      ["ret.DeviceEUI = protocol.EUIFromInt64(devEUI)", "ret.DevAddr = protocol.DevAddrFromString(devAddrStr)",
+       "ret.AppEUI = protocol.EUIFromInt64(appEUI)", "ret.AppKey = protocol.AESKeyFromString(appKeyStr)",
+       "ret.AppSKey = protocol.AESKeyFromString(appSkeyStr)", "ret.NwkSKey = protocol.AESKeyFromString(nwkSkeyStr)"] ∧
+    Facts.Storage.updateDeviceArgs =
+      ["device.DevAddr.String()", "device.AppKey.String()", "device.AppSKey.String()", "device.NwkSKey.String()", "uint8(device.State)",
+       "device.FCntUp", "device.FCntDn", "device.RelaxedCounter", "device.KeyWarning", "device.Tag", "device.DeviceEUI.ToInt64()"] ∧
+    Facts.Storage.deleteDeviceArgs = ["eui.ToInt64()"] :=
+  ⟨rfl, rfl, rfl, rfl, rfl⟩
+
+theorem tie_deviceSQL :
+    Facts.Storage.deviceSqlInsertSQL =
+      some "INSERT INTO lora_devices ( eui, dev_addr, app_key, apps_key, nwks_key, application_eui, state, fcnt_up, fcnt_dn, relaxed_counter, key_warning, tag) VALUES ( $1, $2, $3, $4, $5, $6, $7, $8, $9, $10, $11, $12)" ∧
+    Facts.Storage.deviceEuiSelectSQL =
+      some "SELECT eui, dev_addr, app_key, apps_key, nwks_key, application_eui, state, fcnt_up, fcnt_dn, relaxed_counter, key_warning, tag FROM lora_devices WHERE eui = $1" ∧
+    Facts.Storage.deviceSqlSelectSQL =
+      some "SELECT eui, dev_addr, app_key, apps_key, nwks_key, application_eui, state, fcnt_up, fcnt_dn, relaxed_counter, key_warning, tag FROM lora_devices WHERE dev_addr = $1" ∧
+    Facts.Storage.deviceSqlListSQL =
+      some "SELECT eui, dev_addr, app_key, apps_key, nwks_key, application_eui, state, fcnt_up, fcnt_dn, relaxed_counter, key_warning, tag FROM lora_devices WHERE application_eui = $1" ∧
+    Facts.Storage.deviceUpdateSQL =
+      some "UPDATE lora_devices SET dev_addr = $1, app_key = $2, apps_key = $3, nwks_key = $4, state = $5, fcnt_up = $6, fcnt_dn = $7, relaxed_counter = $8, key_warning = $9, tag = $10 WHERE eui = $11" ∧
+    Facts.Storage.deviceDeleteSQL = some "DELETE FROM lora_devices WHERE eui = $1" :=
+  ⟨rfl, rfl, rfl, rfl, rfl, rfl⟩
+
+/-- schema.sql: one row per device EUI (Model/Row.lean `create`), one row per (device, nonce)
+    (Model/Pipeline.lean `DB.addNonce`), one per (device, created_time) in the downstream queue. -/
+theorem tie_primaryKeys :
+    "lora_devices:eui" ∈ Facts.Storage.primaryKeys ∧
+    "lora_device_nonces:device_eui,nonce" ∈ Facts.Storage.primaryKeys ∧
+    "lora_downstream_messages:device_eui,created_time" ∈ Facts.Storage.primaryKeys := by decide
+
 end Tie.Storage
 end LospanVerif
